@@ -1,9 +1,25 @@
 (** C11 -- No peer-supplied bytes can panic a decoding or verifying entry point.
     Statements only.  Each theorem says that the [outcome]-valued model of an entry point (with an
     explicit [Panic] at every place where the Rust code would panic) never returns [Panic], for ALL
-    byte strings.  Area models contribute their own totality theorems (see the list in DESIGN.md). *)
-From SL Require Import Lib.Base Model.Panic Proofs.Panic.
+    byte strings / messages / histories.  Sections:
+      1. message header and relay frame classification (Model/Panic.v);
+      2. verifiable-encryption wire format and the calls made on a parsed proof (Model/VEnc.v, Proofs/PanicVEnc.v);
+      3. BIP32 derive_xpub + to_string (Model/Bip32.v, Proofs/PanicBip32.v; per-function facts also in Props/C12.v);
+      4. the relay with its mutex over arbitrary histories, and the buffered wrapper (Proofs/PanicRelay.v, Proofs/Buffered.v);
+      5. Paillier key Deserialize (Model/Paillier.v, Proofs/PanicPaillier.v; also Props/C07.v);
+      6. base OT / PPRF / OT extension / RVOLE `process` functions (Proofs/PanicOt.v).
+    Premises that remain are stated in the theorems: 32-byte sha256 output, non-zero RSA modulus (sites shown reachable
+    without it), SEC1 encoding lengths and hash output lengths, in-range fixed-width integers.  Names of Model/Relay.v,
+    Model/Buffered.v, Model/Bip32.v, Model/Pprf.v that clash with Model/Panic.v are written qualified. *)
+From SL Require Import Lib.Base Lib.Oracle Lib.ZqGroup Model.Panic Proofs.Panic.
+From SL Require Import Model.VEnc Proofs.PanicVEnc Proofs.VEncInst.
+From SL Require Model.Bip32 Proofs.Bip32 Proofs.Bip32NonVac Proofs.PanicBip32.
+From SL Require Model.Relay Proofs.PanicRelay Model.Buffered Proofs.Buffered.
+From SL Require Model.Paillier Proofs.PaillierWidth Proofs.PanicPaillier.
+From SL Require Model.Endemic Model.Pprf Model.SoftSpoken Model.RvoleCore Model.Rvole Proofs.PanicOt.
 
+
+(** 1. Message header / relay frame classification *)
 Theorem msghdr_parse_total : forall frame, is_panic (msghdr_try_from frame) = false.
 Proof. exact msghdr_try_from_total. Qed.
 Check msghdr_parse_total : forall frame, is_panic (msghdr_try_from frame) = false.
@@ -18,3 +34,433 @@ Theorem relay_send_total : forall frame, is_panic (classify_relay_send frame) = 
 Proof. exact classify_relay_send_total. Qed.
 Check relay_send_total : forall frame, is_panic (classify_relay_send frame) = false.
 Print Assumptions relay_send_total.
+
+(** 2. Verifiable encryption.  from_bytes never panics: every point size, every scalar decoder, every byte string; no hypotheses. *)
+Theorem venc_from_bytes_total :
+  forall (psize : nat) (from_repr : list N -> option Z) (d : list N),
+  is_panic (from_bytes psize from_repr d) = false.
+Proof. exact from_bytes_total. Qed.
+Check venc_from_bytes_total :
+  forall (psize : nat) (from_repr : list N -> option Z) (d : list N),
+  is_panic (from_bytes psize from_repr d) = false.
+Print Assumptions venc_from_bytes_total.
+
+Theorem venc_W_from_bytes_total : forall (W : venc_world) (d : list N), is_panic (W_from_bytes W d) = false.
+Proof. exact W_from_bytes_total. Qed.
+Check venc_W_from_bytes_total : forall (W : venc_world) (d : list N), is_panic (W_from_bytes W d) = false.
+Print Assumptions venc_W_from_bytes_total.
+
+(** what a parsed object satisfies (F3 repaired: at most 256 slots, so every challenge bit index is inside the 32-byte hash) *)
+Theorem venc_parsed_shape :
+  forall (W : venc_world) (d : list N) (p : vproof), W_from_bytes W d = Val p ->
+  length (vp_slots p) = vp_sp p /\ length (vp_opens p) = vp_sp p /\ (128 <= vp_sp p <= 256)%nat.
+Proof. exact W_from_bytes_shape. Qed.
+Check venc_parsed_shape :
+  forall (W : venc_world) (d : list N) (p : vproof), W_from_bytes W d = Val p ->
+  length (vp_slots p) = vp_sp p /\ length (vp_opens p) = vp_sp p /\ (128 <= vp_sp p <= 256)%nat.
+Print Assumptions venc_parsed_shape.
+
+(** verify of a parsed proof against ANY claimed point, key (non-zero modulus) and label *)
+Theorem venc_verify_total :
+  forall W : venc_world, (forall x, length (w_sha256 W x) = 32%nat) ->
+  forall (d : list N) (p : vproof) (Q : w_G W) (pk : w_PK W) (label : list N),
+  W_from_bytes W d = Val p -> w_pk_n W pk <> 0%Z -> is_panic (W_verify W p Q pk label) = false.
+Proof. exact W_verify_total. Qed.
+Check venc_verify_total :
+  forall W : venc_world, (forall x, length (w_sha256 W x) = 32%nat) ->
+  forall (d : list N) (p : vproof) (Q : w_G W) (pk : w_PK W) (label : list N),
+  W_from_bytes W d = Val p -> w_pk_n W pk <> 0%Z -> is_panic (W_verify W p Q pk label) = false.
+Print Assumptions venc_verify_total.
+
+(** decrypt of ANY object (parsed or not) *)
+Theorem venc_decrypt_total :
+  forall (W : venc_world) (p : vproof) (Q : w_G W) (sk : w_SK W) (label : list N),
+  w_sk_n W sk <> 0%Z -> is_panic (W_decrypt W p Q sk label) = false.
+Proof. exact W_decrypt_total. Qed.
+Check venc_decrypt_total :
+  forall (W : venc_world) (p : vproof) (Q : w_G W) (sk : w_SK W) (label : list N),
+  w_sk_n W sk <> 0%Z -> is_panic (W_decrypt W p Q sk label) = false.
+Print Assumptions venc_decrypt_total.
+
+Theorem venc_to_bytes_total :
+  forall (W : venc_world) (d : list N) (p : vproof),
+  W_from_bytes W d = Val p -> is_panic (W_to_bytes W p) = false.
+Proof. exact W_to_bytes_total. Qed.
+Check venc_to_bytes_total :
+  forall (W : venc_world) (d : list N) (p : vproof),
+  W_from_bytes W d = Val p -> is_panic (W_to_bytes W p) = false.
+Print Assumptions venc_to_bytes_total.
+
+(** the whole receiving chain on raw bytes: from_bytes, verify, decrypt, to_bytes *)
+Theorem venc_receive_total :
+  forall W : venc_world, (forall x, length (w_sha256 W x) = 32%nat) ->
+  forall (d : list N) (Q : w_G W) (pk : w_PK W) (sk : w_SK W) (label : list N),
+  w_pk_n W pk <> 0%Z -> w_sk_n W sk <> 0%Z -> is_panic (W_receive W d Q pk sk label) = false.
+Proof. exact W_receive_total. Qed.
+Check venc_receive_total :
+  forall W : venc_world, (forall x, length (w_sha256 W x) = 32%nat) ->
+  forall (d : list N) (Q : w_G W) (pk : w_PK W) (sk : w_SK W) (label : list N),
+  w_pk_n W pk <> 0%Z -> w_sk_n W sk <> 0%Z -> is_panic (W_receive W d Q pk sk label) = false.
+Print Assumptions venc_receive_total.
+
+(** non-vacuity: the toy world of Proofs/VEncInst.v satisfies the premises and parses a 4264-byte string *)
+Theorem venc_c11_premises_satisfiable :
+  (forall x, length (w_sha256 toy_world x) = 32%nat) /\ w_pk_n toy_world tt <> 0%Z /\ w_sk_n toy_world tt <> 0%Z /\
+  exists p, W_from_bytes toy_world pv_ex_bytes = Val p.
+Proof. exact pv_premises_satisfiable. Qed.
+Check venc_c11_premises_satisfiable :
+  (forall x, length (w_sha256 toy_world x) = 32%nat) /\ w_pk_n toy_world tt <> 0%Z /\ w_sk_n toy_world tt <> 0%Z /\
+  exists p, W_from_bytes toy_world pv_ex_bytes = Val p.
+Print Assumptions venc_c11_premises_satisfiable.
+
+(** the modulus premise cannot be dropped: with RSA modulus 0 the `BigUint % 0` site is reached by verify and by decrypt *)
+Theorem venc_modulus_premise_needed :
+  obind (W_from_bytes zero_mod_world pv_ex_bytes)
+        (fun p => W_verify zero_mod_world p (W_gen zero_mod_world) tt []) = Panic 1%N /\
+  obind (W_from_bytes zero_mod_world pv_ex_bytes)
+        (fun p => W_decrypt zero_mod_world p (W_gen zero_mod_world) tt []) = Panic 1%N.
+Proof. exact modulus0_panics. Qed.
+Check venc_modulus_premise_needed :
+  obind (W_from_bytes zero_mod_world pv_ex_bytes)
+        (fun p => W_verify zero_mod_world p (W_gen zero_mod_world) tt []) = Panic 1%N /\
+  obind (W_from_bytes zero_mod_world pv_ex_bytes)
+        (fun p => W_decrypt zero_mod_world p (W_gen zero_mod_world) tt []) = Panic 1%N.
+Print Assumptions venc_modulus_premise_needed.
+
+(** 3. BIP32.  Any root (identity included), chain code, prefix, path of any length with any components. *)
+Theorem bip32_derive_xpub_total :
+  forall G (O : group_ops G) (hmac512 : list N -> list N -> list N) (sha256 ripemd160 : list N -> list N) (q : Z),
+  Proofs.Bip32.enc_len O -> forall (pfx : Model.Bip32.prefix) (root : G) (cc path : list N),
+  is_panic (Model.Bip32.derive_xpub G O hmac512 sha256 ripemd160 q pfx root cc path) = false.
+Proof. exact PanicBip32.derive_xpub_total. Qed.
+Check bip32_derive_xpub_total :
+  forall G (O : group_ops G) (hmac512 : list N -> list N -> list N) (sha256 ripemd160 : list N -> list N) (q : Z),
+  Proofs.Bip32.enc_len O -> forall (pfx : Model.Bip32.prefix) (root : G) (cc path : list N),
+  is_panic (Model.Bip32.derive_xpub G O hmac512 sha256 ripemd160 q pfx root cc path) = false.
+Print Assumptions bip32_derive_xpub_total.
+
+(** derive_xpub(..)?.to_string(encoded) as one chain *)
+Theorem bip32_xpub_string_total :
+  forall G (O : group_ops G) (hmac512 : list N -> list N -> list N) (sha256 ripemd160 : list N -> list N) (q : Z),
+  Proofs.Bip32.enc_len O -> forall (pfx : Model.Bip32.prefix) (root : G) (cc path : list N) (encoded : bool),
+  Proofs.Bip32.oracle_lens hmac512 ripemd160 -> length cc = 32%nat ->
+  is_panic (PanicBip32.xpub_string G O hmac512 sha256 ripemd160 q pfx root cc path encoded) = false.
+Proof. exact PanicBip32.xpub_string_total. Qed.
+Check bip32_xpub_string_total :
+  forall G (O : group_ops G) (hmac512 : list N -> list N -> list N) (sha256 ripemd160 : list N -> list N) (q : Z),
+  Proofs.Bip32.enc_len O -> forall (pfx : Model.Bip32.prefix) (root : G) (cc path : list N) (encoded : bool),
+  Proofs.Bip32.oracle_lens hmac512 ripemd160 -> length cc = 32%nat ->
+  is_panic (PanicBip32.xpub_string G O hmac512 sha256 ripemd160 q pfx root cc path encoded) = false.
+Print Assumptions bip32_xpub_string_total.
+
+Theorem bip32_identity_root_is_error :
+  forall G (O : group_ops G) (hmac512 : list N -> list N -> list N) (sha256 ripemd160 : list N -> list N) (q : Z),
+  forall (pfx : Model.Bip32.prefix) (root : G) (cc path : list N) (encoded : bool),
+  g_eqb O root (g_id O) = true ->
+  PanicBip32.xpub_string G O hmac512 sha256 ripemd160 q pfx root cc path encoded = Err Model.Bip32.E_PointAtInfinity.
+Proof. exact PanicBip32.xpub_string_identity_root. Qed.
+Check bip32_identity_root_is_error :
+  forall G (O : group_ops G) (hmac512 : list N -> list N -> list N) (sha256 ripemd160 : list N -> list N) (q : Z),
+  forall (pfx : Model.Bip32.prefix) (root : G) (cc path : list N) (encoded : bool),
+  g_eqb O root (g_id O) = true ->
+  PanicBip32.xpub_string G O hmac512 sha256 ripemd160 q pfx root cc path encoded = Err Model.Bip32.E_PointAtInfinity.
+Print Assumptions bip32_identity_root_is_error.
+
+Theorem bip32_too_deep_is_error :
+  forall G (O : group_ops G) (hmac512 : list N -> list N -> list N) (sha256 ripemd160 : list N -> list N) (q : Z),
+  forall (pfx : Model.Bip32.prefix) (root : G) (cc path : list N) (encoded : bool),
+  (255 < length path)%nat ->
+  exists e, PanicBip32.xpub_string G O hmac512 sha256 ripemd160 q pfx root cc path encoded = Err e.
+Proof. exact PanicBip32.xpub_string_too_deep. Qed.
+Check bip32_too_deep_is_error :
+  forall G (O : group_ops G) (hmac512 : list N -> list N -> list N) (sha256 ripemd160 : list N -> list N) (q : Z),
+  forall (pfx : Model.Bip32.prefix) (root : G) (cc path : list N) (encoded : bool),
+  (255 < length path)%nat ->
+  exists e, PanicBip32.xpub_string G O hmac512 sha256 ripemd160 q pfx root cc path encoded = Err e.
+Print Assumptions bip32_too_deep_is_error.
+
+Theorem bip32_c11_hyps_satisfiable :
+  Proofs.Bip32.enc_len (Bip32NonVac.zq33 11 Bip32NonVac.bip32_lt_1_11) /\ Proofs.Bip32.oracle_lens Bip32NonVac.ex_hmac Bip32NonVac.ex_rip /\
+  length Bip32NonVac.ex_cc = 32%nat /\
+  (exists s, PanicBip32.xpub_string _ (Bip32NonVac.zq33 11 Bip32NonVac.bip32_lt_1_11) Bip32NonVac.ex_hmac Bip32NonVac.ex_sha Bip32NonVac.ex_rip 11
+               Model.Bip32.XPub Bip32NonVac.ex_root Bip32NonVac.ex_cc Bip32NonVac.ex_path true = Val s) /\
+  PanicBip32.xpub_string _ (Bip32NonVac.zq33 11 Bip32NonVac.bip32_lt_1_11) Bip32NonVac.ex_hmac Bip32NonVac.ex_sha Bip32NonVac.ex_rip 11
+    Model.Bip32.XPub (g_id (Bip32NonVac.zq33 11 Bip32NonVac.bip32_lt_1_11)) Bip32NonVac.ex_cc Bip32NonVac.ex_path true = Err Model.Bip32.E_PointAtInfinity.
+Proof. exact PanicBip32.pb_hyps_satisfiable. Qed.
+Check bip32_c11_hyps_satisfiable :
+  Proofs.Bip32.enc_len (Bip32NonVac.zq33 11 Bip32NonVac.bip32_lt_1_11) /\ Proofs.Bip32.oracle_lens Bip32NonVac.ex_hmac Bip32NonVac.ex_rip /\
+  length Bip32NonVac.ex_cc = 32%nat /\
+  (exists s, PanicBip32.xpub_string _ (Bip32NonVac.zq33 11 Bip32NonVac.bip32_lt_1_11) Bip32NonVac.ex_hmac Bip32NonVac.ex_sha Bip32NonVac.ex_rip 11
+               Model.Bip32.XPub Bip32NonVac.ex_root Bip32NonVac.ex_cc Bip32NonVac.ex_path true = Val s) /\
+  PanicBip32.xpub_string _ (Bip32NonVac.zq33 11 Bip32NonVac.bip32_lt_1_11) Bip32NonVac.ex_hmac Bip32NonVac.ex_sha Bip32NonVac.ex_rip 11
+    Model.Bip32.XPub (g_id (Bip32NonVac.zq33 11 Bip32NonVac.bip32_lt_1_11)) Bip32NonVac.ex_cc Bip32NonVac.ex_path true = Err Model.Bip32.E_PointAtInfinity.
+Print Assumptions bip32_c11_hyps_satisfiable.
+
+(** 4. Relay.  Model/Relay.v (C15/C16) has no Panic outcome: its step function is total by construction.  What ties it to the
+    panic-aware classification above: that classification computes exactly the case split, id and TTL used by Relay.step ... *)
+Theorem relay_start_send_classification :
+  forall f : list N,
+  classify_start_send f =
+    if negb (Relay.hdr_ok f) then Val FShort
+    else if Nat.eqb (length f) Relay.HDR_SIZE then Val (FAsk (Relay.hdr_id f) (Relay.hdr_ttl_secs f))
+    else Val (FPublish (Relay.hdr_id f) (Relay.hdr_ttl_secs f)).
+Proof. exact PanicRelay.classify_start_send_spec. Qed.
+Check relay_start_send_classification :
+  forall f : list N,
+  classify_start_send f =
+    if negb (Relay.hdr_ok f) then Val FShort
+    else if Nat.eqb (length f) Relay.HDR_SIZE then Val (FAsk (Relay.hdr_id f) (Relay.hdr_ttl_secs f))
+    else Val (FPublish (Relay.hdr_id f) (Relay.hdr_ttl_secs f)).
+Print Assumptions relay_start_send_classification.
+
+Theorem relay_send_classification :
+  forall f : list N,
+  classify_relay_send f =
+    if Nat.leb (length f) Relay.HDR_SIZE then Val FShort
+    else Val (FPublish (Relay.hdr_id f) (Relay.hdr_ttl_secs f)).
+Proof. exact PanicRelay.classify_relay_send_spec. Qed.
+Check relay_send_classification :
+  forall f : list N,
+  classify_relay_send f =
+    if Nat.leb (length f) Relay.HDR_SIZE then Val FShort
+    else Val (FPublish (Relay.hdr_id f) (Relay.hdr_ttl_secs f)).
+Print Assumptions relay_send_classification.
+
+(** ... and the relay step with the mutex explicit (lock().unwrap() panics on a poisoned mutex; a panic inside a critical
+    section poisons it), run over EVERY history -- short / header-only / malformed frames through the Sink path and through
+    SimpleMessageRelay::send, drains, messages(): every step returns a value, the mutex stays unpoisoned, states and
+    observations are those of Relay.exec / Relay.trace *)
+Theorem relay_history_total :
+  forall (h : list Relay.op) (s : Relay.state),
+  PanicRelay.run_locked (PanicRelay.mkL false s) h
+    = (PanicRelay.mkL false (Relay.exec s h), map Val (Relay.trace s h)).
+Proof. exact PanicRelay.run_locked_spec. Qed.
+Check relay_history_total :
+  forall (h : list Relay.op) (s : Relay.state),
+  PanicRelay.run_locked (PanicRelay.mkL false s) h
+    = (PanicRelay.mkL false (Relay.exec s h), map Val (Relay.trace s h)).
+Print Assumptions relay_history_total.
+
+Theorem relay_lock_never_poisoned :
+  forall (h : list Relay.op) (s : Relay.state),
+  PanicRelay.poisoned (fst (PanicRelay.run_locked (PanicRelay.mkL false s) h)) = false /\
+  Forall (fun x => is_panic x = false) (snd (PanicRelay.run_locked (PanicRelay.mkL false s) h)).
+Proof. exact PanicRelay.relay_history_no_panic. Qed.
+Check relay_lock_never_poisoned :
+  forall (h : list Relay.op) (s : Relay.state),
+  PanicRelay.poisoned (fst (PanicRelay.run_locked (PanicRelay.mkL false s) h)) = false /\
+  Forall (fun x => is_panic x = false) (snd (PanicRelay.run_locked (PanicRelay.mkL false s) h)).
+Print Assumptions relay_lock_never_poisoned.
+
+(** the lock model is not vacuous: a poisoned mutex makes every later locking call panic (what F6 looked like) *)
+Theorem relay_poisoned_is_fatal :
+  forall (s : Relay.state) (f : list N) (t : N),
+  snd (PanicRelay.step_locked (PanicRelay.mkL true s) (Relay.ORelaySend f t)) = Panic PanicRelay.P_LOCK /\
+  snd (PanicRelay.step_locked (PanicRelay.mkL true s) Relay.OMessages) = Panic PanicRelay.P_LOCK.
+Proof. exact PanicRelay.poisoned_is_fatal. Qed.
+Check relay_poisoned_is_fatal :
+  forall (s : Relay.state) (f : list N) (t : N),
+  snd (PanicRelay.step_locked (PanicRelay.mkL true s) (Relay.ORelaySend f t)) = Panic PanicRelay.P_LOCK /\
+  snd (PanicRelay.step_locked (PanicRelay.mkL true s) Relay.OMessages) = Panic PanicRelay.P_LOCK.
+Print Assumptions relay_poisoned_is_fatal.
+
+(** BufferedMsgRelay: no call sequence with any cancellation points, over any inner-relay script (short frames included), panics *)
+Theorem buffered_relay_no_panic :
+  forall (cs : list (Model.Buffered.call * nat)) (s : Model.Buffered.state)
+         (rs : list Model.Buffered.result) (s' : Model.Buffered.state),
+  Model.Buffered.run cs s = (rs, s') -> ~ In Model.Buffered.RPanic rs.
+Proof. exact Proofs.Buffered.no_panic_lemma. Qed.
+Check buffered_relay_no_panic :
+  forall (cs : list (Model.Buffered.call * nat)) (s : Model.Buffered.state)
+         (rs : list Model.Buffered.result) (s' : Model.Buffered.state),
+  Model.Buffered.run cs s = (rs, s') -> ~ In Model.Buffered.RPanic rs.
+Print Assumptions buffered_relay_no_panic.
+
+(** 5. Paillier key Deserialize (after F4).  The ranges are those of the fixed-width integers of the byte format; every value
+    inside them -- zero, even, composite, p = q -- gives an error or a key. *)
+Theorem paillier_deser_pk_total :
+  forall (w : Paillier.widths) (n : Z), Paillier.widths_ok w -> (0 <= n < 2 ^ Paillier.wM w)%Z ->
+  is_panic (Paillier.deser_pk w n) = false.
+Proof. exact PaillierWidth.deser_pk_no_panic. Qed.
+Check paillier_deser_pk_total :
+  forall (w : Paillier.widths) (n : Z), Paillier.widths_ok w -> (0 <= n < 2 ^ Paillier.wM w)%Z ->
+  is_panic (Paillier.deser_pk w n) = false.
+Print Assumptions paillier_deser_pk_total.
+
+Theorem paillier_deser_sk_total :
+  forall (w : Paillier.widths) (p q : Z), Paillier.widths_ok w ->
+  (0 <= p < 2 ^ Paillier.wP w)%Z -> (0 <= q < 2 ^ Paillier.wP w)%Z ->
+  is_panic (Paillier.deser_sk w p q) = false.
+Proof. exact PaillierWidth.deser_sk_no_panic. Qed.
+Check paillier_deser_sk_total :
+  forall (w : Paillier.widths) (p q : Z), Paillier.widths_ok w ->
+  (0 <= p < 2 ^ Paillier.wP w)%Z -> (0 <= q < 2 ^ Paillier.wP w)%Z ->
+  is_panic (Paillier.deser_sk w p q) = false.
+Print Assumptions paillier_deser_sk_total.
+
+Theorem paillier_deser_pk_cases :
+  forall (w : Paillier.widths) (n : Z), Paillier.widths_ok w -> (0 <= n < 2 ^ Paillier.wM w)%Z ->
+  (n = 0%Z /\ Paillier.deser_pk w n = Err 1%N) \/
+  (n <> 0%Z /\ Z.even n = true /\ Paillier.deser_pk w n = Err 2%N) \/
+  (Z.odd n = true /\ Paillier.deser_pk w n = Val (Paillier.from_n w n)).
+Proof. exact PanicPaillier.deser_pk_cases. Qed.
+Check paillier_deser_pk_cases :
+  forall (w : Paillier.widths) (n : Z), Paillier.widths_ok w -> (0 <= n < 2 ^ Paillier.wM w)%Z ->
+  (n = 0%Z /\ Paillier.deser_pk w n = Err 1%N) \/
+  (n <> 0%Z /\ Z.even n = true /\ Paillier.deser_pk w n = Err 2%N) \/
+  (Z.odd n = true /\ Paillier.deser_pk w n = Val (Paillier.from_n w n)).
+Print Assumptions paillier_deser_pk_cases.
+
+Theorem paillier_deser_sk_cases :
+  forall (w : Paillier.widths) (p q : Z), Paillier.widths_ok w ->
+  (0 <= p < 2 ^ Paillier.wP w)%Z -> (0 <= q < 2 ^ Paillier.wP w)%Z ->
+  ((Z.even p = true \/ Z.even q = true) /\ Paillier.deser_sk w p q = Err 2%N) \/
+  (Z.odd p = true /\ Z.odd q = true /\ Paillier.deser_sk w p q = Val (Paillier.from_pq w p q)).
+Proof. exact PanicPaillier.deser_sk_cases. Qed.
+Check paillier_deser_sk_cases :
+  forall (w : Paillier.widths) (p q : Z), Paillier.widths_ok w ->
+  (0 <= p < 2 ^ Paillier.wP w)%Z -> (0 <= q < 2 ^ Paillier.wP w)%Z ->
+  ((Z.even p = true \/ Z.even q = true) /\ Paillier.deser_sk w p q = Err 2%N) \/
+  (Z.odd p = true /\ Z.odd q = true /\ Paillier.deser_sk w p q = Val (Paillier.from_pq w p q)).
+Print Assumptions paillier_deser_sk_cases.
+
+(** zero and even values are errors for ALL widths, no hypotheses *)
+Theorem paillier_zero_even_rejected :
+  (forall w, Paillier.deser_pk w 0 = Err 1%N) /\
+  (forall w n, n <> 0%Z -> Z.even n = true -> Paillier.deser_pk w n = Err 2%N) /\
+  (forall w p q, Z.even p = true \/ Z.even q = true -> Paillier.deser_sk w p q = Err 2%N).
+Proof. exact PanicPaillier.deser_zero_even_rejected. Qed.
+Check paillier_zero_even_rejected :
+  (forall w, Paillier.deser_pk w 0 = Err 1%N) /\
+  (forall w n, n <> 0%Z -> Z.even n = true -> Paillier.deser_pk w n = Err 2%N) /\
+  (forall w p q, Z.even p = true \/ Z.even q = true -> Paillier.deser_sk w p q = Err 2%N).
+Print Assumptions paillier_zero_even_rejected.
+
+(** the site is real: constructing the key from an even modulus (the pre-F4 Deserialize) panics *)
+Theorem paillier_even_modulus_site_real :
+  forall (w : Paillier.widths) (n : Z), Paillier.widths_ok w -> (0 <= n < 2 ^ Paillier.wM w)%Z -> Z.even n = true ->
+  Paillier.from_n_outcome w n = Panic 1%N.
+Proof. exact PanicPaillier.from_n_even_panics. Qed.
+Check paillier_even_modulus_site_real :
+  forall (w : Paillier.widths) (n : Z), Paillier.widths_ok w -> (0 <= n < 2 ^ Paillier.wM w)%Z -> Z.even n = true ->
+  Paillier.from_n_outcome w n = Panic 1%N.
+Print Assumptions paillier_even_modulus_site_real.
+
+Theorem paillier_c11_hyps_satisfiable :
+  Paillier.widths_ok Paillier.cfg512 /\ (0 <= 0 < 2 ^ Paillier.wM Paillier.cfg512)%Z /\
+  (0 <= 2 ^ 255 < 2 ^ Paillier.wM Paillier.cfg512)%Z /\ (0 <= 15 < 2 ^ Paillier.wP Paillier.cfg512)%Z /\
+  Paillier.deser_pk Paillier.cfg512 0 = Err 1%N /\ Paillier.deser_pk Paillier.cfg512 (2 ^ 255) = Err 2%N /\
+  is_panic (Paillier.deser_pk Paillier.cfg512 15) = false /\ is_panic (Paillier.deser_sk Paillier.cfg512 15 15) = false /\
+  Paillier.deser_sk Paillier.cfg512 0 7 = Err 2%N.
+Proof. exact PanicPaillier.pp_hyps_satisfiable. Qed.
+Check paillier_c11_hyps_satisfiable :
+  Paillier.widths_ok Paillier.cfg512 /\ (0 <= 0 < 2 ^ Paillier.wM Paillier.cfg512)%Z /\
+  (0 <= 2 ^ 255 < 2 ^ Paillier.wM Paillier.cfg512)%Z /\ (0 <= 15 < 2 ^ Paillier.wP Paillier.cfg512)%Z /\
+  Paillier.deser_pk Paillier.cfg512 0 = Err 1%N /\ Paillier.deser_pk Paillier.cfg512 (2 ^ 255) = Err 2%N /\
+  is_panic (Paillier.deser_pk Paillier.cfg512 15) = false /\ is_panic (Paillier.deser_sk Paillier.cfg512 15 15) = false /\
+  Paillier.deser_sk Paillier.cfg512 0 7 = Err 2%N.
+Print Assumptions paillier_c11_hyps_satisfiable.
+
+(** 6. OT stack and RVOLE: the `process` functions on a peer's message -- every message (any list shape, any bytes), every
+    oracle, every group, every local state; no hypotheses. *)
+Theorem endemic_sender_process_total :
+  forall G (O : group_ops G) (H : transcript_oracle) (sid : list N)
+         (msg1 : list (list N * list N)) (tbs : list (Z * Z)),
+  is_panic (snd (Endemic.eot_sender_process G O H sid msg1 tbs)) = false.
+Proof. exact PanicOt.eot_sender_process_total. Qed.
+Check endemic_sender_process_total :
+  forall G (O : group_ops G) (H : transcript_oracle) (sid : list N)
+         (msg1 : list (list N * list N)) (tbs : list (Z * Z)),
+  is_panic (snd (Endemic.eot_sender_process G O H sid msg1 tbs)) = false.
+Print Assumptions endemic_sender_process_total.
+
+Theorem endemic_receiver_process_total :
+  forall G (O : group_ops G) (H : transcript_oracle) (st : Endemic.recv_state) (msg2 : list (list N * list N)),
+  is_panic (Endemic.eot_receiver_process G O H st msg2) = false.
+Proof. exact PanicOt.eot_receiver_process_total. Qed.
+Check endemic_receiver_process_total :
+  forall G (O : group_ops G) (H : transcript_oracle) (st : Endemic.recv_state) (msg2 : list (list N * list N)),
+  is_panic (Endemic.eot_receiver_process G O H st msg2) = false.
+Print Assumptions endemic_receiver_process_total.
+
+Theorem pprf_eval_total :
+  forall (H : transcript_oracle) (sid choice_bits : list N) (recv_keys : list (list N)) (msg : list Pprf.pprf_msg),
+  is_panic (Pprf.eval_pprf H sid choice_bits recv_keys msg) = false.
+Proof. exact PanicOt.eval_pprf_total. Qed.
+Check pprf_eval_total :
+  forall (H : transcript_oracle) (sid choice_bits : list N) (recv_keys : list (list N)) (msg : list Pprf.pprf_msg),
+  is_panic (Pprf.eval_pprf H sid choice_bits recv_keys msg) = false.
+Print Assumptions pprf_eval_total.
+
+Theorem softspoken_sender_total :
+  forall (H : transcript_oracle) (sid : list N) (seed : SoftSpoken.ReceiverOTSeed) (msg : SoftSpoken.Round1Output),
+  is_panic (SoftSpoken.ss_sender H sid seed msg) = false.
+Proof. exact PanicOt.ss_sender_total. Qed.
+Check softspoken_sender_total :
+  forall (H : transcript_oracle) (sid : list N) (seed : SoftSpoken.ReceiverOTSeed) (msg : SoftSpoken.Round1Output),
+  is_panic (SoftSpoken.ss_sender H sid seed msg) = false.
+Print Assumptions softspoken_sender_total.
+
+Theorem rvole_send_process_total :
+  forall (H : transcript_oracle) (q : Z) (sid : list N) (seed : SoftSpoken.ReceiverOTSeed) (a : list Z)
+         (r1 : SoftSpoken.Round1Output) (eta : list (list N)),
+  is_panic (Rvole.rvole_send_process H q sid seed a r1 eta) = false.
+Proof. exact PanicOt.rvole_send_process_total. Qed.
+Check rvole_send_process_total :
+  forall (H : transcript_oracle) (q : Z) (sid : list N) (seed : SoftSpoken.ReceiverOTSeed) (a : list Z)
+         (r1 : SoftSpoken.Round1Output) (eta : list (list N)),
+  is_panic (Rvole.rvole_send_process H q sid seed a r1 eta) = false.
+Print Assumptions rvole_send_process_total.
+
+Theorem rvole_recv_process_total :
+  forall (H : transcript_oracle) (q : Z) (st : Rvole.rv_state) (m : RvoleCore.rmsg),
+  is_panic (Rvole.rvole_recv_process H q st m) = false.
+Proof. exact PanicOt.rvole_recv_process_total. Qed.
+Check rvole_recv_process_total :
+  forall (H : transcript_oracle) (q : Z) (st : Rvole.rv_state) (m : RvoleCore.rmsg),
+  is_panic (Rvole.rvole_recv_process H q st m) = false.
+Print Assumptions rvole_recv_process_total.
+
+(** base-OT variant: the assert_eq!(len_a + len_b, XI) sites are unreachable whatever the two base-OT messages contain *)
+Theorem rvole_ot_send_process_total :
+  forall (H : transcript_oracle) (q : Z) G (O : group_ops G) (sid : list N) (a : list Z)
+         (m1a m1b : list (list N * list N)) (tbs_a tbs_b : list (Z * Z)) (eta : list (list N)),
+  is_panic (snd (Rvole.rvole_ot_send_process H q G O sid a m1a m1b tbs_a tbs_b eta)) = false.
+Proof. exact PanicOt.rvole_ot_send_process_total. Qed.
+Check rvole_ot_send_process_total :
+  forall (H : transcript_oracle) (q : Z) G (O : group_ops G) (sid : list N) (a : list Z)
+         (m1a m1b : list (list N * list N)) (tbs_a tbs_b : list (Z * Z)) (eta : list (list N)),
+  is_panic (snd (Rvole.rvole_ot_send_process H q G O sid a m1a m1b tbs_a tbs_b eta)) = false.
+Print Assumptions rvole_ot_send_process_total.
+
+Theorem rvole_ot_recv_process_total :
+  forall (H : transcript_oracle) (q : Z) G (O : group_ops G) (st : Rvole.rvo_state)
+         (m2a m2b : list (list N * list N)) (m : RvoleCore.rmsg),
+  is_panic (Rvole.rvole_ot_recv_process H q G O st m2a m2b m) = false.
+Proof. exact PanicOt.rvole_ot_recv_process_total. Qed.
+Check rvole_ot_recv_process_total :
+  forall (H : transcript_oracle) (q : Z) G (O : group_ops G) (st : Rvole.rvo_state)
+         (m2a m2b : list (list N * list N)) (m : RvoleCore.rmsg),
+  is_panic (Rvole.rvole_ot_recv_process H q G O st m2a m2b m) = false.
+Print Assumptions rvole_ot_recv_process_total.
+
+(** RVOLEReceiver::new (base-OT variant) reads no peer data; its assert compares the lengths of the two LOCAL choice strings *)
+Theorem rvole_ot_recv_new_total :
+  forall (H : transcript_oracle) (q : Z) G (O : group_ops G) (sid : list N)
+         (bits_a : list N) (tas_a : list Z) (ros_a : list G) (bits_b : list N) (tas_b : list Z) (ros_b : list G),
+  (length bits_a + length bits_b = Nat.div RvoleCore.rv_xi 8)%nat ->
+  is_panic (Rvole.rvole_ot_recv_new H q G O sid bits_a tas_a ros_a bits_b tas_b ros_b) = false.
+Proof. exact PanicOt.rvole_ot_recv_new_total. Qed.
+Check rvole_ot_recv_new_total :
+  forall (H : transcript_oracle) (q : Z) G (O : group_ops G) (sid : list N)
+         (bits_a : list N) (tas_a : list Z) (ros_a : list G) (bits_b : list N) (tas_b : list Z) (ros_b : list G),
+  (length bits_a + length bits_b = Nat.div RvoleCore.rv_xi 8)%nat ->
+  is_panic (Rvole.rvole_ot_recv_new H q G O sid bits_a tas_a ros_a bits_b tas_b ros_b) = false.
+Print Assumptions rvole_ot_recv_new_total.
+
+Theorem rvole_ot_recv_new_premise_satisfiable :
+  (length (repeat 0%N 32) + length (repeat 0%N 32) = Nat.div RvoleCore.rv_xi 8)%nat.
+Proof. exact PanicOt.rv_recv_new_premise_satisfiable. Qed.
+Check rvole_ot_recv_new_premise_satisfiable :
+  (length (repeat 0%N 32) + length (repeat 0%N 32) = Nat.div RvoleCore.rv_xi 8)%nat.
+Print Assumptions rvole_ot_recv_new_premise_satisfiable.
